@@ -39,7 +39,7 @@ PURE_UNINTERPRETED = {
     "percentile", "nanmin", "nanmax", "nanmean", "count_nonzero", "logical_and", "logical_or", "logical_not",
     "array_split", "vstack", "hstack", "column_stack", "tile", "outer", "dot", "prod", "nanpercentile",
     "lexsort", "partition", "argpartition", "digitize", "meshgrid", "full", "eye", "identity", "triu", "tril",
-    "issubdtype", "finfo", "iinfo", "result_type", "promote_types", "can_cast", "spacing", "rint", "trunc", "fix",
+    "issubdtype", "finfo", "iinfo", "result_type", "promote_types", "can_cast", "spacing", "rint", "trunc", "fix", "isinf", "isposinf", "isneginf",
 }
 
 BUILTIN_TYPES = {"str", "int", "float", "bool", "list", "tuple", "dict", "set", "bytes", "object", "type"}
@@ -864,6 +864,8 @@ def call_ext(ev, dotted, args, kwargs, node):
         return App(dotted.split("scipy.stats.", 1)[1], [as_v(ev, a) for a in args], _kw(ev, kwargs))
     if dotted in ("math.pow",):
         return powv_general(as_v(ev, args[0]), as_v(ev, args[1]))
+    if dotted in ("math.log", "math.exp", "math.log10", "math.log2", "math.log1p", "math.expm1") and len(args) == 1 and not kwargs:
+        return App(dotted.split(".")[1], (as_v(ev, args[0]),))      # pure elementary functions (uninterpreted)
     if dotted == "math.sqrt":
         return mk_app("sqrt", [as_v(ev, args[0])])
     if dotted in ("math.floor", "math.ceil"):
